@@ -275,6 +275,11 @@ class C10(Check):
             out.observed['sequences_compared'] += 1
             if norm(s.out) != norm(want):
                 out.fail('differs-from-list-definition', op=node, mode=mode, seq=seq, want=want, got=s.out)
+            elif mode == 'mux' and len(seq) <= 60 and not prelude and norm(progs.subscribe_list(rs.state.with_memory_store([rs.ops.tee_map([op], join='merge')]), seq)) != norm(want):
+                # the operator as the HEAD of a tee_map branch (its source is then the proxy of a published multiplexed observable,
+                # a subclass of MuxObservable): a single branch merged is the branch
+                out.fail('differs-from-list-definition-at-the-head-of-a-tee_map-branch', op=node, mode=mode, seq=seq, want=want,
+                         got=progs.subscribe_list(rs.state.with_memory_store([rs.ops.tee_map([op], join='merge')]), seq))
             elif len(seq) <= 60 and not prelude:
                 # three streams with staggered lifetimes through the SAME operator object (a long-lived stream open, a second
                 # one starting and ending meanwhile, a third one starting before the first ends): each owes the list definition
